@@ -452,6 +452,54 @@ fn section_scores(out: &mut Out) {
                         }
                     }
                 }
+                // the checked position-array entry points at the effective block sizes (31 for block hash 2 of
+                // the largest size), and their unchecked twins where the configuration has them
+                {
+                    use ssdeep::internal_comparison::BlockHashPositionArrayImpl;
+                    let r = std::panic::catch_unwind(std::panic::AssertUnwindSafe(|| {
+                        let p1 = tg.block_hash_1();
+                        let p2 = tg.block_hash_2();
+                        (
+                            p1.score_strings(b.block_hash_1(), la),
+                            p2.score_strings(b.block_hash_2(), la + 1),
+                            p1.edit_distance(b.block_hash_1()),
+                            p2.has_common_substring(b.block_hash_2()),
+                            p1.is_equiv(b.block_hash_1()),
+                            p1.score_strings_raw(b.block_hash_1()),
+                        )
+                    }));
+                    match r {
+                        Ok(v) => {
+                            #[cfg(feature = "unchecked")]
+                            {
+                                use ssdeep::internal_comparison::BlockHashPositionArrayImplUnchecked;
+                                let p1 = tg.block_hash_1();
+                                let p2 = tg.block_hash_2();
+                                let u = unsafe {
+                                    (
+                                        p1.score_strings_unchecked(b.block_hash_1(), la),
+                                        p2.score_strings_unchecked(b.block_hash_2(), la + 1),
+                                        p1.edit_distance_unchecked(b.block_hash_1()),
+                                        p2.has_common_substring_unchecked(b.block_hash_2()),
+                                        p1.is_equiv_unchecked(b.block_hash_1()),
+                                        p1.score_strings_raw_unchecked(b.block_hash_1()),
+                                    )
+                                };
+                                if u != v {
+                                    out.bad(format!("position array unchecked twins disagree at la={} lb={} template {}: {:?} vs {:?}", la, lb, k, u, v));
+                                }
+                            }
+                            if la == lb && a != b && v.0.max(v.1) != s2 {
+                                out.bad(format!("position-array scores {:?} disagree with compare = {} at la=lb={} template {}", v, s2, la, k));
+                            }
+                            out.line(format!("A {} {} {} {:?}", la, lb, k, v));
+                        }
+                        Err(_) => {
+                            out.bad(format!("checked position-array entry point panicked on in-contract arguments at la={} lb={} template {}", la, lb, k));
+                            out.line(format!("A {} {} {} PANIC", la, lb, k));
+                        }
+                    }
+                }
                 out.line(format!("S {} {} {} {} {} {} {} {:?}", la, lb, k, s1, s2, s3, cand, w));
             }
         }
